@@ -84,6 +84,10 @@ func (o *Op) Line() string {
 		return "bt " + o.Kind + " " + hs(o.Name)
 	case "idle":
 		return fmt.Sprintf("bt idle %s %d", hs(o.Name), o.N)
+	case "gentoken":
+		return "bt gentoken " + hs(o.Name)
+	case "checktoken":
+		return "bt checktoken " + hs(o.Name) + " " + hx(o.Key)
 	case "modify":
 		parts := []string{"bt modify", hs(o.Name), fmt.Sprint(len(o.Mods))}
 		for _, m := range o.Mods {
@@ -691,6 +695,21 @@ func (e *Env) Exec(cop core.Op) (resp string) {
 	case "gc":
 		if !e.svc.ForceGC(o.Name) {
 			return "err notfound"
+		}
+		return "ok"
+	case "gentoken":
+		r, err := admin.GenerateConsistencyToken(ctx, &btapb.GenerateConsistencyTokenRequest{Name: o.Name})
+		if err != nil {
+			return errResp(err)
+		}
+		return "ok " + hs(r.ConsistencyToken)
+	case "checktoken":
+		r, err := admin.CheckConsistency(ctx, &btapb.CheckConsistencyRequest{Name: o.Name, ConsistencyToken: string(o.Key)})
+		if err != nil {
+			return errResp(err)
+		}
+		if !r.Consistent {
+			return "inconsistent"
 		}
 		return "ok"
 	case "idle":
